@@ -12,6 +12,9 @@ theorems of Props/C07.lean are about), the output is read off the resulting worl
   exec <sess> <sec> <nsec> <cmdHex> <shell 0|1>     -> started <remaining grants> | refused <remaining> | nosess
   tube <sess> <ttype> <reliable 0|1>                -> served | closed | nosess   (end-to-end suites only)
   intent <sess> <gtype> <exp> <userHex> <leafOk>    -> ok | denied | nosess     (checkIntent, clock = 2e9 s)
+  issue <sess> <gtype> <start> <exp> <userHex> <key> <cmdHex> <leafOk>
+                                                    -> confirmed | denied | nosess   (intent communicated on an
+                                                       authorization-grant tube of the session: checkIntent + AddAuthGrant)
   dump                                              -> grants=<g;g;…> keys=<k,k,…>   (server maps, sorted)
 A grant is printed as  gtype,start,exp,userHex,key,cmdHex ; lists are `;`-joined, `-` when empty.
 
@@ -131,6 +134,19 @@ def step (m : Mode) (w : World) : List String → World × String
       | none => (w, "nosess")
       | some s => (w, if checkIntent s (2000000000 * ns) ⟨g, ex, u, ok⟩ then "ok" else "denied")
     | _, _, _, _, _ => (w, "bad-op")
+  | ["issue", i, g, st, ex, u, k, cmd, ok] =>
+    match natLt i 1000, natLt g 256, natLt st tMax, natLt ex tMax, userLe m u, natLt k 65536,
+          bytesLe cmd 255, parseBool01 ok with
+    | some i, some g, some st, some ex, some u, some k, some cmd, some ok =>
+      -- no wire encoding for grant types 3/4; command text only travels with type 2; wall clock
+      if g = 3 ∨ g = 4 ∨ (g ≠ 2 ∧ cmd ≠ []) ∨ (1500000000 < ex ∧ ex < 3000000000) then (w, "bad-op") else
+      match w.sessions[i]? with
+      | none => (w, "nosess")
+      | some s =>
+        if m = .full ∧ s.usingGrant then (w, "closed") else
+        let w' := stepW w (.issue i (2000000000 * ns) ⟨g, cmd, st, ex, u, k⟩ ok)
+        (w', if w'.issued.length > w.issued.length then "confirmed" else "denied")
+    | _, _, _, _, _, _, _, _ => (w, "bad-op")
   | ["dump"] => (w, dump w.server)
   | _ => (w, "bad-op")
 
